@@ -57,9 +57,10 @@ theorem C02_echo_partial (env : Env) (hl : env.Lawful) (t : Ty) (v : V) (hs : su
   C02_echo env t v hs h (C02_stable env hl t v hs hx h)
 
 /-- A value of the right Python type that the declared type cannot represent is rejected — for every type whose temporal /
-decimal columns are lossless (`Spec.Rejects` minus second / millisecond temporal units: see Findings/C02.lean). -/
+decimal values inside are stored losslessly or refused by their columns (`Spec.Rejects` minus values with sub-unit parts in
+second / millisecond temporal columns and decimals with a 39-digit coefficient: see Findings/C02.lean). -/
 theorem C02_reject_partial (env : Env) (t : Ty) (v : V) (hs : supported t = true) (hw : wellTyped env t v = true)
-    (hi : inhabits env t v = false) (hl : lossless env t) : ∃ e, sendParam env t v = .error e :=
+    (hi : inhabits env t v = false) (hl : lossless env t v) : ∃ e, sendParam env t v = .error e :=
   Aux.sendParam_reject env t v hs hw hi hl
 
 /-- None is accepted exactly in Optional positions. -/
@@ -98,7 +99,7 @@ theorem C02_signature_echo (env : Env) (sig : List Param) (args : List (List Cha
 example : supported (.map .str (.opt .f32)) = true := by decide
 example : inhabits concreteEnv (.list (.opt (.int .i8))) (.list [.int 127, .none]) = true := by decide
 example : wellTyped concreteEnv (.int .i8) (.int 128) = true ∧ inhabits concreteEnv (.int .i8) (.int 128) = false := by decide
-example : lossless concreteEnv (.list (.int .i8)) := by simp [lossless]
+example : lossless concreteEnv (.list (.int .i8)) (.list [.int 128]) := by simp [lossless]
 example : dcExact (.opt (.dc "Inner".toList (.cons "x".toList false Option.none (.scalar .int) .nil))) = true := by decide
 
 end VgiVerif.C02
